@@ -10,7 +10,7 @@ Proof. reflexivity. Qed.
 (** a numeric string supplies the number it spells (NewFromString) *)
 Lemma string_number_spec s : string_number s = dec_of_string s.
 Proof.
-  unfold string_number, convert_number_check.
+  unfold string_number, convert_number_check, convert_number_check_base.
   assert (Hv : (if is_empty_value (value_of (VStr false s)) then value_of (VStr false s) else deref1 (value_of (VStr false s))) = value_of (VStr false s)).
   { destruct (is_empty_value _); reflexivity. }
   rewrite Hv. cbn. destruct (dec_of_string s); reflexivity.
